@@ -134,6 +134,28 @@ func (t *%(T)s) %(m2)s(n int) string { t.%(f1)s += strconv.Itoa(n + t.%(m1)s());
     p.features.append("structs")
 
 
+def s_method_struct_param(p):
+    """an exported method taking NAMED structs (and a slice of them) by value: none of these types reaches reflection, so
+    their names and field names must be gone from the binary (the method name itself is documented to stay)"""
+    rel = p.lib()
+    R, P, Q, f1, f2, f3, m = p.n("Receiver"), p.n("ParamStruct"), p.n("NestedStruct"), p.n("FieldOne"), p.n("fieldTwo", False), p.n("FieldThree"), p.n("Method", True, keep=True)
+    p.add(rel, """
+type %(Q)s struct{ %(f3)s int }
+type %(P)s struct {
+	%(f1)s int
+	%(f2)s %(Q)s
+}
+type %(R)s struct{ n int }
+func (r *%(R)s) %(m)s(a %(P)s, bs []%(P)s) string {
+	r.n += a.%(f1)s + a.%(f2)s.%(f3)s + len(bs)
+	return fmt.Sprint(r.n)
+}
+""" % locals(), {'"fmt"'})
+    p.run_func(rel, """	r := &%(R)s{n: len(args)}
+	return r.%(m)s(%(P)s{%(f1)s: 2, %(f2)s: %(Q)s{%(f3)s: 3}}, []%(P)s{{}, {}})""" % locals(), {'"fmt"'})
+    p.features.append("method-struct-param")
+
+
 def s_iface(p):
     rel = p.lib()
     I, m, A, B, S = p.n("Iface"), p.n("hidden", False), p.n("implA", False), p.n("ImplB"), p.n("Stringy")
@@ -347,7 +369,7 @@ func meth%(local)s(t *lk.%(T)s, d int) int
 
 
 def s_asm(p):
-    rel = p.lib()
+    rel = "" if getattr(p, "asm_in_main", False) else p.lib()
     add, cb, v = p.n("asmAdd", False), p.n("goCallback", False), p.n("asmVar", False)
     p.add(rel, """
 func %(add)s(a, b int64) int64
@@ -464,8 +486,9 @@ BASIC_SNIPPETS = [s_structs, s_iface, s_generics, s_closures, s_crosspkg, s_impo
 TOOLCHAIN_SNIPPETS = [s_ldflags, s_linkname, s_asm, s_tests]
 
 
-def gen_program(rnd, nsnip=6, toolchain=True, npkgs=3, must=()):
+def gen_program(rnd, nsnip=6, toolchain=True, npkgs=3, must=(), asm_in_main=False):
     p = Prog(rnd, npkgs=npkgs)
+    p.asm_in_main = asm_in_main
     chosen = list(must)
     pool = BASIC_SNIPPETS + (TOOLCHAIN_SNIPPETS if toolchain else [])
     while len(chosen) < nsnip:
